@@ -185,6 +185,10 @@ func (sess *hopSession) handleAgc(tube *tubes.Reliable) {
 	// Check server config (coarse grained enable/disable)
 	if !sess.server.config.EnableAuthgrants { // AuthGrants not enabled
 		authgrants.WriteIntentDenied(tube, authgrants.TargetDenial)
+	} else if sess.usingAuthGrant {
+		// a session that was itself admitted through authgrants can only do
+		// what those grants name; none of them lets it issue further grants
+		authgrants.WriteIntentDenied(tube, "session admitted through authgrants cannot issue authgrants")
 	} else {
 		logrus.Info("target: starting target instance")
 		cert := sess.transportConn.FetchClientLeaf()
